@@ -44,6 +44,14 @@ def worker_pq():
     return _WORKER_PQ[0]
 
 
+def load_corpus(pid):
+    """minimised past failures / disagreements (corpus/<pid>/*.json), run before the generated cases"""
+    import glob
+    import json
+    from harness import common as C
+    return [json.load(open(p)) for p in sorted(glob.glob(os.path.join(C.VERIF, "corpus", pid, "*.json")))]
+
+
 def run_dataset_jobs(ctx, check_dataset, cases, prefix, replayable, nproc=4, job_timeout=180):
     """check_dataset(case, root, pq, recorder) for every case in forked workers; a worker that dies (native crash)
     or hangs is a failing input of the property, not the end of the check. Returns the per-case result dicts."""
